@@ -247,8 +247,14 @@ func H_c01_symmerge_t() { c01SymMerge(9, 9) }
 // labelled graphs must have the same canonical graph as its images under every adjacent
 // transposition.  Unions of three or more cycles are where the search finds a better leaf
 // after automorphisms have been recorded.
-func c01CycleTypes(lo, hi int) {
-	n := lo + rt.Choice("n", hi-lo+1)
+func c01CycleTypes(lo, hi int) { c01CycleTypesIso(lo, hi, 0) }
+
+// With maxIso > 0 up to maxIso isolated vertices are added to the union of cycles (very
+// sparse graphs; the isolated vertices form one more cell that never splits).
+func c01CycleTypesIso(lo, hi, maxIso int) {
+	nc := lo + rt.Choice("n", hi-lo+1)
+	iso := rt.Choice("isolated", maxIso+1)
+	n := nc + iso
 	var types [][]int
 	var gen func(rem, min int, cur []int)
 	gen = func(rem, min int, cur []int) {
@@ -262,7 +268,7 @@ func c01CycleTypes(lo, hi int) {
 			}
 		}
 	}
-	gen(n, 3, nil)
+	gen(nc, 3, nil)
 	t := types[rt.Choice("type", len(types))]
 	base := make([][]bool, n)
 	for i := range base {
@@ -320,5 +326,5 @@ func c01CycleTypes(lo, hi int) {
 	rt.Reach("end")
 }
 
-func H_c01_cycletypes_q() { c01CycleTypes(11, 12) }
+func H_c01_cycletypes_q() { c01CycleTypesIso(11, 12, 2) }
 func H_c01_cycletypes_t() { c01CycleTypes(13, 15) }
